@@ -211,6 +211,9 @@ impl EngineT {
     #[verifier::external_body]
     pub fn filter(&self, hash: u64, estimated_size: usize) -> (r: StorageFilterResult)
         ensures (r is Admit) == self.admit@ { unimplemented!() }
+    /// whether the disk index currently has an address for the hash (unconstrained: depends on flusher progress)
+    #[verifier::external_body]
+    pub fn may_contains(&self, hash: u64) -> bool { unimplemented!() }
 }
 pub struct EntrySerializer { }
 impl EntrySerializer { #[verifier::external_body] pub fn estimated_size(k: &KeyT, v: &ValueT) -> usize { unimplemented!() } }
@@ -222,6 +225,11 @@ impl StoreT {
 //@head
     fn filter(&self, hash: u64, estimated_size: usize) -> (r: StorageFilterResult)
         ensures (r is Admit) == self.inner.engine.admit@,
+//@end
+
+//@region foyer-storage/src/store.rs :: impl~^impl<K, V, S, P> Store<K, V, S, P> where/fn may_contains name=store_may_contains whole=1
+//@head
+    fn may_contains<Q: Hash + Equivalent<KeyT> + ?Sized>(&self, key: &Q) -> (r: bool)
 //@end
 
 //@region foyer-storage/src/store.rs :: impl~^impl<K, V, S, P> Store<K, V, S, P> where/fn delete name=store_delete whole=1 rules=drop-metrics
